@@ -30,6 +30,17 @@ type vReplayOut struct {
 func vRunOne(in vReplayIn) (out vReplayOut) {
 	r := &vRun{vec: in.Vector}
 	vCur = r
+	digest := vGlobalsDigest()
+	defer func() {
+		if vGlobalsDigest() != digest {
+			// a call modified package-level state (C04 isolation)
+			r.failed = append(r.failed, "isolation:package-state-modified")
+			out.Failed = r.failed
+			if out.Outcome == "ok" {
+				out.Outcome = "assert"
+			}
+		}
+	}()
 	defer func() {
 		if p := recover(); p != nil {
 			if _, ok := p.(vAssumeFailed); ok {
